@@ -26,8 +26,19 @@ CHUNK = 4000            # steps per tour segment (bounds the history needed to r
 _line_re = re.compile(r'^<<"@@([SU])", "(.*)">>$')
 
 
+# Spelling probes: a few dedicated tour segments are walked with identifiers
+# spelled in another legal way.  A disagreement there is classified to the
+# finding's key only if the very same segment AGREES with the spec once the
+# spelling is the canonical one (see controls()).
+PROBES = {
+    "nethostbits": ("net", "cidr-host-bits-not-normalised"),
+    "maccolon8": ("set", "mac8-colon-form-stored-as-ipv6"),
+}
+PROBE_SEGMENTS = 4
+
+
 def classify(rec):
-    """Narrow keys of known findings (none so far)."""
+    """Narrow keys of known findings (the spelling probes are classified by their control run)."""
     return None
 
 
@@ -169,7 +180,7 @@ def make_variants(seed, uni):
     def v(i):
         r = random.Random("%d/%s/%d" % (seed, uni, i))
         return {"maclen": [6, 8, 20][i % 3], "v6": i % 4 == 3, "seed": r.randrange(1 << 40),
-                "names": r.randrange(3), "global": r.randrange(16), "w": 4}
+                "names": r.randrange(3), "global": r.randrange(16), "w": 4, "maccolon8": False, "nethostbits": False}
     return v
 
 
@@ -203,27 +214,64 @@ def run_replay(ctx, graphs, chunks, tag):
     return [r for r in rows if r.get("t") == "bad"], summ[0]
 
 
-def reproduce(ctx, gmap, bad, n):
-    """Re-run a disagreement in isolation: first the single step from a freshly
-    built source state, then the recorded prefix of its tour.  Returns the
-    replay record (to be stored) or None."""
-    g = gmap[bad["u"]]
-    attempts = []
-    if bad["step"] >= 0:
-        attempts.append({"t": "c", "u": bad["u"], "id": 0, "variant": bad["variant"], "start": bad["src"],
-                         "steps": [bad["edge"]]})
-    attempts.append({"t": "c", "u": bad["u"], "id": 0, "variant": bad["variant"], "start": bad["start"],
-                     "steps": step_list(bad["_chunk"], bad["step"] + 1)})
-    for k, c in enumerate(attempts):
-        again, _ = run_replay(ctx, [g], [c], "repro%d_%d" % (n, k))
-        if again and again[0]["step"] == len(c["steps"]) - 1 and again[0]["what"] == bad["what"]:
-            rec = dict(again[0])
-            # state indices depend on TLC's output order: store keys
-            rec["chunk_keys"] = {"u": c["u"], "variant": c["variant"], "start": list(g.keys[c["start"]]),
-                                 "steps": [e[:6] + [list(g.keys[e[6]])] for e in c["steps"]]}
-            rec["seed"] = ctx.seed
-            return rec
-    return None
+def reproduce(ctx, gmap, bads, tag):
+    """Re-run disagreements in isolation (a second time, each from a fresh
+    Storage): first only the offending step from a freshly built source state,
+    then -- for those that did not show that way -- the recorded prefix of the
+    tour.  Returns a list parallel to bads: the replay record or None."""
+    graphs = [gmap[u] for u in sorted({b["u"] for b in bads})]
+    recs = [None] * len(bads)
+
+    def attempt(kind):
+        cs, who = [], []
+        for i, b in enumerate(bads):
+            if recs[i] is not None:
+                continue
+            if kind == "step":
+                if b["step"] < 0:
+                    continue
+                c = {"start": b["src"], "steps": [b["edge"]]}
+            else:
+                c = {"start": b["start"], "steps": step_list(b["_chunk"], b["step"] + 1)}
+            c.update({"t": "c", "u": b["u"], "id": len(cs), "variant": b["variant"]})
+            cs.append(c)
+            who.append(i)
+        if not cs:
+            return
+        again, _ = run_replay(ctx, graphs, cs, "%s_%s" % (tag, kind))
+        for a in again:
+            c, i = cs[a["chunk"]], who[a["chunk"]]
+            if a["step"] == len(c["steps"]) - 1 and a["what"] == bads[i]["what"]:
+                g = gmap[c["u"]]
+                rec = dict(a)
+                # state indices depend on TLC's output order: store keys
+                rec["chunk_keys"] = {"u": c["u"], "variant": c["variant"], "start": list(g.keys[c["start"]]),
+                                     "steps": [e[:6] + [list(g.keys[e[6]])] for e in c["steps"]]}
+                rec["seed"] = ctx.seed
+                rec["_chunk_input"] = c
+                recs[i] = rec
+
+    attempt("step")
+    attempt("prefix")
+    return recs
+
+
+def controls(ctx, gmap, recs, flags, tag):
+    """For spelling probes: the same segments with the canonical spelling.
+    Returns, per record, True if the control run agrees with the spec."""
+    cs = []
+    for i, (rec, flag) in enumerate(zip(recs, flags)):
+        c = dict(rec["_chunk_input"])
+        c["variant"] = dict(c["variant"])
+        c["variant"][flag] = False
+        c["id"] = i
+        cs.append(c)
+    if not cs:
+        return []
+    graphs = [gmap[u] for u in sorted({c["u"] for c in cs})]
+    again, _ = run_replay(ctx, graphs, cs, tag)
+    failed = {a["chunk"] for a in again}
+    return [i not in failed for i in range(len(cs))]
 
 
 # ---------------------------------------------------------------- direction B
@@ -306,16 +354,46 @@ def run(ctx):
     truncated = 0
     flaky = 0
     cmap = {c["id"]: c for c in chunks}
-    for n, b in enumerate(bads[:12]):
+    bads = bads[:12]
+    for b in bads:
         b["_chunk"] = cmap[b["chunk"]]
         truncated += nsteps(b["_chunk"]) - (b["step"] + 1)
-        rec = reproduce(ctx, gmap, b, n)
+    for b, rec in zip(bads, reproduce(ctx, gmap, bads, "repro") if bads else []):
         if rec is None:
             flaky += 1
             continue
+        rec.pop("_chunk_input")
         ctx.disagreement(classify(rec), rec, "%s: %s after %s" % (b["u"], rec["what"], rec["concrete"]))
     if flaky:
         raise vlib.Inconclusive("%d disagreement(s) did not reproduce in isolation" % flaky)
+
+    # --- spelling probes (dedicated segments; see PROBES)
+    probe_chunks = []
+    for flag, (uni, _key) in sorted(PROBES.items()):
+        cand = [c for c in chunks if c["u"] == uni and nsteps(c) >= 3]
+        rng.shuffle(cand)
+        for c in cand[:PROBE_SEGMENTS]:
+            pc = dict(c)
+            pc["variant"] = dict(c["variant"])
+            pc["variant"][flag] = True
+            if flag == "maccolon8":
+                pc["variant"]["maclen"] = 8
+            pc["id"] = len(probe_chunks)
+            pc["_flag"] = flag
+            probe_chunks.append(pc)
+    pbads, psumm = run_replay(ctx, graphs, [{k: v for k, v in c.items() if k != "_flag"} for c in probe_chunks], "probe")
+    probe_steps = sum(nsteps(c) for c in probe_chunks)
+    for b in pbads:
+        b["_chunk"] = probe_chunks[b["chunk"]]
+        truncated += nsteps(b["_chunk"]) - (b["step"] + 1)
+    precs = reproduce(ctx, gmap, pbads, "probe_repro") if pbads else []
+    if any(r is None for r in precs):
+        raise vlib.Inconclusive("a spelling-probe disagreement did not reproduce in isolation")
+    pflags = [b["_chunk"]["_flag"] for b in pbads]
+    for b, rec, flag, agrees in zip(pbads, precs, pflags, controls(ctx, gmap, precs, pflags, "probe_control")):
+        rec.pop("_chunk_input")
+        key = PROBES[flag][1] if agrees else None
+        ctx.disagreement(key, rec, "%s (%s spelling): %s after %s" % (b["u"], flag, rec["what"], rec["concrete"]))
 
     # --- direction B
     trows, tbad, tskipped = trace_validate(ctx)
@@ -344,6 +422,8 @@ def run(ctx):
     cov = {
         "traces_validated_against_impl": len(chunks) + ntraces,
         "tour_segments": len(chunks), "edges_replayed": summ["steps"],
+        "spelling_probe_segments": len(probe_chunks), "spelling_probe_steps": psumm["steps"],
+        "spelling_probe_disagreements": len(pbads),
         "edges_in_universe": sum(g.nedges for g in graphs) if not ctx.quick else None,
         "states_in_universes": {g.name: len(g.keys) for g in graphs},
         "edges_by_op_reply": {"%d/%d" % k: v for k, v in sorted(by_kind.items())},
@@ -354,7 +434,7 @@ def run(ctx):
                 "or are refused because of a name/identifier clash (refusals for an unknown name are trivial)",
         "trace_histories": ntraces, "trace_lines": len(trows), "trace_lines_rejected": len(tbad),
         "trace_lines_skipped": tskipped,
-        "truncated_by_known_finding": truncated if ctx.known_hits else 0,
+        "truncated_by_known_finding": truncated,
         "coverage_actions_cov_cfg": taken,
         "exhaustive": not ctx.quick, "samples": samples,
     }
